@@ -10,12 +10,12 @@ Definition add_tables : list addtable :=
    rimt_table; viot_table; cedt_table].
 
 (* tables whose additions are proved to be self-describing entries (every ACCEPTED addition: the entry's own length field, read
-   as the specification says, is the number of bytes the entry occupies); HMAT is registered separately (its instance needs the
-   entry to be shorter than 2^32 bytes: Proofs/HmatWalkP.v hmat_walk_fit, hmat_tiles) *)
+   as the specification says, is the number of bytes the entry occupies) *)
 From ACPI Require Import Proofs.SratWalkP Proofs.XsdtWalkP Proofs.McfgWalkP Proofs.PpttWalkP Proofs.RhctWalkP Proofs.RimtWalkP
-  Proofs.ViotWalkP Proofs.CedtWalkP Proofs.HestWalkP.
+  Proofs.ViotWalkP Proofs.CedtWalkP Proofs.HestWalkP Proofs.HmatWalkP.
 Definition walk_tables : list walktable :=
-  [madt_walk; srat_walk; xsdt_walk; mcfg_walk; pptt_walk; rhct_walk; rimt_walk; viot_walk; cedt_walk; hest_walk].
+  [madt_walk; srat_walk; xsdt_walk; mcfg_walk; pptt_walk; rhct_walk; rimt_walk; viot_walk; cedt_walk; hest_walk;
+   hmat_walk Checked; hmat_walk Wrapping].
 
 (* ------------------------------------------------------------------------------------------------
    C01 / C02 for the incrementally maintained tables *)
